@@ -2380,7 +2380,11 @@ func (c *converter) flattenSelectorChain(x *ast.SelectorExpr) (arms []selArm, ha
 			// The head receiver is a primary expression: `.sel` binds
 			// tighter than any binary operator, so a binary head needs
 			// parens to keep its grouping (`(a & b).c`, not `a & b.c`).
-			arms = append(arms, selArm{doc: wrapForPrecedence(c.expr(e), e, token.HighestPrec)})
+			head := wrapForPrecedence(c.expr(e), e, token.HighestPrec)
+			if intLitMergesWithPeriod(e) {
+				head = cat(head, spaceLit)
+			}
+			arms = append(arms, selArm{doc: head})
 			return
 		}
 		walk(sel.X, false)
@@ -4123,6 +4127,29 @@ func unaryOpMergesWithOperand(op token.Token, operand ast.Expr) bool {
 		return lead[0] == '='
 	}
 	return false
+}
+
+// intLitMergesWithPeriod reports whether rendering a selector period
+// immediately after e would let the two re-lex as a single float
+// literal, so a separating space must be inserted: a decimal integer
+// literal followed by `.` scans as a float with an empty fraction
+// (`1.a` is the float `1.` followed by `a`, not a selection on `1`).
+// Literals in another base or with a multiplier suffix (`0x1f`, `1Ki`)
+// end before the period and cannot merge.
+//
+// Keying off tokenisation rather than RelPos means the space is emitted
+// by construction, even for programmatic ASTs that carry no RelPos.
+func intLitMergesWithPeriod(e ast.Expr) bool {
+	lit, ok := e.(*ast.BasicLit)
+	if !ok || lit.Kind != token.INT || lit.Value == "" {
+		return false
+	}
+	for i := 0; i < len(lit.Value); i++ {
+		if c := lit.Value[i]; (c < '0' || c > '9') && c != '_' {
+			return false
+		}
+	}
+	return true
 }
 
 // aliasEqualsMergesWithExpr reports whether rendering an alias's `=`
